@@ -98,13 +98,16 @@ class _Stop(Exception):
     pass
 
 
-def judge(res, g, setname, recs, bgzip, use_outind, scratch, big=False, record_history=True):
+def judge(res, g, setname, recs, bgzip, use_outind, scratch, big=False, record_history=True, gz_input=False):
     if record_history and CTX["stop"] is not None and CTX["n"] >= CTX["stop"]:
         raise _Stop()
     gfa_path = os.path.join(scratch, "g.gfa")
     fw.write_text(gfa_path, g.text())
-    gaf = os.path.join(scratch, "in.gaf")
-    fw.write_text(gaf, "".join(r.line() + "\n" for r in recs))
+    gaf = os.path.join(scratch, "in.gaf" + (".gz" if gz_input else ""))
+    if gz_input:
+        vi.write_gaf(gaf, "".join(r.line() + "\n" for r in recs), ("bgzip64k",))  # the input itself is BGZF of several blocks
+    else:
+        fw.write_text(gaf, "".join(r.line() + "\n" for r in recs))
     outp = os.path.join(scratch, "s.gaf" + (".gz" if bgzip else ""))
     outind = os.path.join(scratch, "custom.idx") if use_outind else None
     cwd = None
@@ -124,7 +127,7 @@ def judge(res, g, setname, recs, bgzip, use_outind, scratch, big=False, record_h
         if cwd is not None:
             os.chdir(cwd)
     res.evaluations += 1
-    case = {"gfa": g.text(), "records": [r.line() for r in recs], "bgzip": bgzip, "outind": use_outind, "set": setname}
+    case = {"gfa": g.text(), "records": [r.line() for r in recs], "bgzip": bgzip, "outind": use_outind, "set": setname, "gz_input": gz_input}
     if big:
         case["records"] = [rgfa.Rec.parse(l).line() for l in case["records"][:40]]
         case["padded_to_bytes"] = 200_000
@@ -206,6 +209,8 @@ def _run(res, spec, tier, scratch):
             for bgzip in (False, True):
                 judge(res, g, setname, big, bgzip, False, scratch, big=True)
                 res.count("outputs_over_64k")
+            judge(res, g, setname, big, False, False, scratch, big=True, gz_input=True)
+            res.count("bgzf_inputs_over_64k")
     res.sample({"chromosomes": spec["nchrom"], "record_sets": [(n, len(r)) for n, r in sets]})
     return res
 
@@ -227,5 +232,5 @@ def replay(case, scratch):
         except _Stop:
             pass
         return [f for f in tmp.failures if f["case"].get("call_sequence", {}).get("index") == cs["index"]]
-    judge(res, g, case.get("set", "replay"), recs, case["bgzip"], case["outind"], scratch, big=big, record_history=False)
+    judge(res, g, case.get("set", "replay"), recs, case["bgzip"], case["outind"], scratch, big=big, record_history=False, gz_input=bool(case.get("gz_input")))
     return res.failures
